@@ -246,12 +246,22 @@ def run(tier, seed):
     _sv, _sn, _sst = _sq.run_stories(PROP, fxv, rd, "renewstory", 2 if tier == "quick" else 8,
                                      "TTL renewed twice while the first renewal was being written")
     viol = viol + _sv
+    # free-running executions with several shards / workers: a reader keeps its pin for SECONDS while flush() asks for the
+    # retirement of the deleted generation about a thousand times a second; Coord.tla's rule for a retirement pass (what a
+    # reader pins stays in the queue) judged on the recorded events (TraceCoord.tla: RetireRespectsPins)
+    import coordengine as _co
+    _cv, _ccov = _co.part(PROP, tier, rng, fxv, rd)
+    viol = viol + _cv
+    cov["coord"] = _ccov
     return {"level": "model_checking", "coverage": cov, "violations": viol,
             "assumptions": ["pin / unpin / pread / write-begin / write-end events are logged strictly inside the "
                             "real intervals (hooks)", "background flush workers run unsteered"]}
 
 
 def replay(path):
+    import coordengine as _co
+    if _co.is_coord(path):
+        return _co.replay_main(PROP, path)
     import seqengine as _sq
     if _sq.is_story(path):
         return _sq.replay_story(PROP, path)
